@@ -66,6 +66,13 @@ pub proof fn lemma_le64_inv(v: u64) ensures de64(le64(v)) == v, le64(v).len() ==
         | ((((v >> 48) & 0xff) as u8 as u64) << 48) | ((((v >> 56) & 0xff) as u8 as u64) << 56) == v) by(bit_vector);
 }
 
+// T7x: `u16::from_le_bytes(..)` (its parameter type `[u8; size_of::<Self>()]` carries an anonymous constant that an
+// assume_specification cannot name).  TRUSTED (core): the little-endian decode of the two bytes
+#[verifier::external_body]
+pub fn shim_u16_from_le_bytes(b: [u8; 2]) -> (r: u16)
+    ensures r == de16(b@)
+{ u16::from_le_bytes(b) }
+
 pub broadcast proof fn lemma_le16_len(v: u16) ensures (#[trigger] le16(v)).len() == 2 { reveal(le16); }
 pub broadcast proof fn lemma_le32_len(v: u32) ensures (#[trigger] le32(v)).len() == 4 { reveal(le32); }
 pub broadcast proof fn lemma_le64_len(v: u64) ensures (#[trigger] le64(v)).len() == 8 { reveal(le64); }
@@ -368,6 +375,7 @@ pub struct BufReader<R> { r: R }
 impl<R> BufReader<R> {
     pub uninterp spec fn g_inner(&self) -> R;
     #[verifier::external_body] pub fn into_inner(self) -> (r: R) ensures r == self.g_inner() { unimplemented!() }
+    #[verifier::external_body] pub fn get_mut(&mut self) -> (r: &mut R) ensures *r == old(self).g_inner(), final(self).g_inner() == *final(r) { unimplemented!() }
 }
 
 // T8: `&mut dyn Write` (GenericZipWriter::ref_mut) is represented by this opaque reborrow of some writer
